@@ -733,6 +733,7 @@ int cg_version(int fn, float *version)
         *version= (float) 3.20;
     } else if (nnod!=1) {
         cgi_error("More then one CGNSLibraryVersion_t node found under ROOT.");
+        free(id);
         return CG_ERROR;
     } else {
         int vers, ndim, temp_version;
@@ -744,16 +745,21 @@ int cg_version(int fn, float *version)
         if (cgi_read_node(id[0], node_name, data_type, &ndim, dim_vals,
                 &data, 1)) {
             cgi_error("Error reading CGNS-Library-Version");
+            free(id);
             return CG_ERROR;
         }
      /* check data type */
         if (strcmp(data_type,"R4")!=0) {
             cgi_error("Unexpected data type for CGNS-Library-Version='%s'",data_type);
+            free(data);
+            free(id);
             return CG_ERROR;
         }
      /* check data dim */
         if (ndim != 1 || (dim_vals[0]!=1)) {
             cgi_error("Wrong data dimension for CGNS-Library-Version");
+            free(data);
+            free(id);
             return CG_ERROR;
         }
      /* save data */
@@ -773,6 +779,7 @@ int cg_version(int fn, float *version)
         }
         if (cg->version == 0) {
             cgi_error("Error:  Unable to determine the version number");
+            free(id);
             return CG_ERROR;
         }
 
